@@ -521,6 +521,22 @@ func checkLoaderShape(rep *core.Report, r4 *core.RuleRun) {
 				okArg = true
 			}
 			r4.Check(okArg, "call:"+core.FuncName(cs.Caller)+"->"+name, cs.Instr.Pos(), "argument is Options.VFlowConfigPath", "loader not called with the configured directory")
+			// the table is replaced before any datagram is read: a synchronous call in the function that owns the receive
+			// loop, before that loop (not in a goroutine, not in a closure)
+			sync := cs.Caller.Parent() == nil
+			if _, isGo := cs.Instr.(*ssa.Go); isGo {
+				sync = false
+			}
+			before := false
+			if sync {
+				allInstrs(cs.Caller, func(ins ssa.Instruction) {
+					if c, ok := ins.(*ssa.Call); ok && strings.HasSuffix(calleeName(c), ".ReadFromUDP") && core.InstrDominates(cs.Instr, c) {
+						before = true
+					}
+				})
+			}
+			r4.Check(sync && before, "call:"+core.FuncName(cs.Caller)+"->"+name+":before-receive-loop", cs.Instr.Pos(), "synchronous, before the first socket read",
+				"the loader does not run to completion before the receive loop starts (it is started in a goroutine/closure or after the loop): datagrams are decoded against an empty or half-filled table, and the unsynchronised replacement of the table races with the decoders")
 		}
 	}
 	r4.Check(called >= 1, name+":invoked", loader.Pos(), fmt.Sprintf("%d call site(s) in package main", called), "loader is never invoked from the collector")
